@@ -10,6 +10,7 @@ import (
 	"strconv"
 	"strings"
 
+	"github.com/vulpemventures/go-elements/psetv2"
 	"github.com/vulpemventures/go-elements/transaction"
 )
 
@@ -340,7 +341,13 @@ func checkC13IssV2(t *Toks) string {
 		return "SKIP contract-outside-modelled-alphabet"
 	}
 	before := len(c.p.Outputs)
-	if err := c.call(); err != nil {
+	callErr := c.call()
+	// whatever the call did, both transaction views of the packet carry, for every input, exactly
+	// the issuance the packet declares (commitments included) and agree with each other
+	if v := issV2Views(c.p); v != "" {
+		return v
+	}
+	if callErr != nil {
 		return "OK rejected"
 	}
 	p := c.p
@@ -428,6 +435,77 @@ func checkC13IssV2(t *Toks) string {
 		return fail("psetv2.Extract.issuance", d)
 	}
 	return verdict
+}
+
+// issuance the packet declares for one input: present iff the entropy field is, each amount the
+// commitment when there is one, else the explicit amount, else the null amount
+func issV2Declared(in *psetv2.Input) *transaction.TxIssuance {
+	if in.IssuanceAssetEntropy == nil {
+		return nil
+	}
+	amount := elAmount(in.IssuanceValue)
+	if len(in.IssuanceValueCommitment) > 0 {
+		amount = in.IssuanceValueCommitment
+	}
+	token := elAmount(in.IssuanceInflationKeys)
+	if len(in.IssuanceInflationKeysCommitment) > 0 {
+		token = in.IssuanceInflationKeysCommitment
+	}
+	return &transaction.TxIssuance{AssetBlindingNonce: in.IssuanceBlindingNonce, AssetEntropy: in.IssuanceAssetEntropy,
+		AssetAmount: amount, TokenAmount: token}
+}
+
+func issFieldsDiff(got, want *transaction.TxIssuance) string {
+	switch {
+	case got == nil && want == nil:
+		return ""
+	case got == nil:
+		return "missing"
+	case want == nil:
+		return "unexpected-issuance"
+	case !bytes.Equal(got.AssetBlindingNonce, want.AssetBlindingNonce):
+		return "nonce"
+	case !bytes.Equal(got.AssetEntropy, want.AssetEntropy):
+		return "entropy"
+	case !bytes.Equal(got.AssetAmount, want.AssetAmount):
+		if len(want.AssetAmount) == 33 {
+			return "asset-amount-not-the-commitment"
+		}
+		return "asset-amount"
+	case !bytes.Equal(got.TokenAmount, want.TokenAmount):
+		if len(want.TokenAmount) == 33 {
+			return "token-amount-not-the-commitment"
+		}
+		return "token-amount"
+	}
+	return ""
+}
+
+func issV2Views(p *psetv2.Pset) string {
+	utx, err := p.UnsignedTx()
+	if err != nil {
+		return fail("psetv2.UnsignedTx", "error")
+	}
+	etx, err := issExtractTx(p)
+	if err != nil {
+		return fail("psetv2.Extract", "error")
+	}
+	if len(utx.Inputs) != len(p.Inputs) || len(etx.Inputs) != len(p.Inputs) {
+		return fail("psetv2.tx-views", "input-count")
+	}
+	for i := range p.Inputs {
+		want := issV2Declared(&p.Inputs[i])
+		if d := issFieldsDiff(utx.Inputs[i].Issuance, want); d != "" {
+			return fail("psetv2.UnsignedTx.issuance-fields", d)
+		}
+		if d := issFieldsDiff(etx.Inputs[i].Issuance, want); d != "" {
+			return fail("psetv2.Extract.issuance-fields", d)
+		}
+		if d := issFieldsDiff(etx.Inputs[i].Issuance, utx.Inputs[i].Issuance); d != "" {
+			return fail("psetv2.Extract.issuance-fields", "differs-from-UnsignedTx/"+d)
+		}
+	}
+	return ""
 }
 
 func elAmountExplicit(v uint64) []byte {
